@@ -151,6 +151,16 @@ class JointRecurrenceNetwork(JointRecurrencePlot, Network):
             raise ValueError("Delay value (lag) must not exceed length of \
                              time series!")
 
+    def __cache_state__(self):
+        #  Both parents contribute mutable state. Without this override, the
+        #  MRO resolves to the first parent only, and network measures are
+        #  not invalidated when the network is regenerated.
+        state = JointRecurrencePlot.__cache_state__(self)
+        if hasattr(self, "_mut_A"):
+            #  (not yet the case while the first parent is initialised)
+            state += Network.__cache_state__(self)
+        return state
+
     def __str__(self):
         """
         Returns a string representation.
